@@ -49,11 +49,11 @@ prop(
 )
 
 prop(
-    'C04', 'exploration',
-    'Bounded stand-in: the real BMSMap.read on generated BMS/BME/PMS texts (all five layouts, subdivisions, 03/08 tempo events, LNOBJ, repeated and shuffled lines) against an independent exact-rational BMS interpreter; the five channel layout tables are enumerated completely (bijection channel <-> column).',
-    'A5 (BMS denotation in contracts/C04_bounded.py); nothing counted as proved',
-    'run-time contract checking against an independent format interpreter (bounded) + exhaustive enumeration of the finite layout tables',
-    "DESIGN.md section 7 C04",
+    'C04', 'other',
+    'The object step of BMSMap._read_notes (body of the loop over the two-character slots of a data line) is verified as a loop-body unit from an arbitrary state: slot i of `division` slots sits at beat 4*i/division of its measure (i, division, measure symbolic); 00 is no object; on a note channel it becomes a hit of that lane with the #WAV sample of its id, or - the #LNOBJ id - closes the latest hit of the lane into a hold ending here; on channels 03 / 08 a tempo change of the hexadecimal value / the #BPMxx entry; nothing else changes; the code raises exactly on the malformed cases. Position -> ms is TimingMap.offsets (C10). The five layout tables are enumerated completely. Line classification, header routing and whole texts: the real reader on generated BMS/BME/PMS texts against an independent exact-rational BMS interpreter (bounded).',
+    'A1, A5 (BMS denotation); BME layout and fixed header tables in the unit state; at most one earlier hit per lane; file-order LN pairing is known finding F6',
+    'contract-based deductive verification (loop-body unit, z3) + exhaustive enumeration of the finite layout tables + bounded run-time checking against an independent format interpreter',
+    "DESIGN.md section 7 C04", explanation='loop-body unit proved for all slots / positions at the stated state shape; the reader as a whole only by the bounded stand-in',
 )
 
 prop(
